@@ -73,6 +73,9 @@ class Check:
     def prove(self, name, hyps, goal, timeout=30, meta=None):
         hyps = list(hyps)
         hyps = hyps + core.closure(hyps + [goal])
+        meta = dict(meta or {})
+        from . import kit
+        meta.setdefault('inputs', dict(kit.INPUTS))
         return self.add(Obligation(name, hyps, goal, timeout=timeout, meta=meta))
 
     def decided(self, name, ok, detail='', meta=None, model=None):
@@ -119,8 +122,11 @@ class Check:
         verbose = os.environ.get('VF_VERBOSE')
         log = (lambda o: print(f'  {o.status:10s} {o.seconds:7.2f}s {o.backend or "-":6s} {o.name}', flush=True)) if verbose else (lambda o: None)
         solve.discharge(self.obls, log=log)
-        # retry undecided with triple budget (verdicts must not flip under load)
-        retry = [o for o in self.obls if o.status == 'undecided' and o.kind != 'decided' and not o.meta.get('no_retry')]
+        # retry undecided obligations once with triple budget -- only those that the committed baseline list records as
+        # discharged (verdicts must not flip under load); a new or changed obligation is not retried.
+        expected = self._expected()
+        retry = [o for o in self.obls if o.status == 'undecided' and o.kind != 'decided' and not o.meta.get('no_retry')
+                 and o.name in expected]
         for o in retry:
             o.status = None
             o.timeout = o.timeout * 3
@@ -139,6 +145,13 @@ class Check:
         if not self.obls:
             raise EngineError('no obligations generated')
         return self._report()
+
+    def _expected(self):
+        p = os.path.join(HERE, 'expected_obligations.json')
+        if not os.path.exists(p):
+            return set()
+        with open(p) as f:
+            return set(json.load(f).get(self.pid, []))
 
     def _known(self):
         if not os.path.exists(KNOWN):
@@ -173,6 +186,13 @@ class Check:
                 o = cand
                 if reproduced:
                     break
+            if not reproduced and all(x.meta.get('candidate') for x in os_) and not any(x.name in self._expected() for x in os_):
+                # only candidate counter-models of an abstraction, not reproduced on the real code, and the obligation
+                # is not one that was discharged on the baseline: a failed proof, not a violation
+                for x in os_:
+                    x.status = 'undecided'
+                    x.detail = 'candidate counter-model of the UF abstraction did not reproduce on the real code'
+                continue
             self.violations.append((o.name, path, reproduced))
             tail = '' if reproduced else ' no-failing-input-found'
             print(f'VIOLATION property={self.pid} replay={path}{tail}')
@@ -182,6 +202,7 @@ class Check:
             if e['id'] not in printed_known and e.get('always_print', True):
                 # a listed finding whose obligation did not fail any more is NOT printed (it may have been fixed)
                 pass
+        undecided = [o for o in self.obls if o.status == 'undecided']
         if exit_code == EXIT_OK and undecided:
             for o in undecided:
                 print(f'UNDECIDED obligation={o.name} backend={o.backend} {o.detail[:200]!r}')
@@ -227,7 +248,7 @@ class Check:
             'failed_cases_of_this_clause': list(also),
             'functions': self.functions, 'goal': o.describe(2000)['goal'],
             'model': {k: str(v) for k, v in (o.model or {}).items()} if isinstance(o.model, dict) else o.model,
-            'solver_output': o.detail[:6000], 'meta': {k: v for k, v in o.meta.items() if isinstance(v, (str, int, float, bool, list, dict))},
+            'solver_output': o.detail[:6000], 'meta': {k: v for k, v in o.meta.items() if isinstance(v, (str, int, float, bool, list, dict)) and k != 'inputs'},
         }
         with open(path, 'w') as f:
             json.dump(rec, f, indent=1, default=str)
